@@ -207,3 +207,25 @@ def judge(v, obs, events, truncated):
         if g in obs["globals"] and isinstance(x, dict) and x.get("t") in ("int", "uint", "float", "vec", "mat", "arr", "struct") and not A.same(x, obs["globals"][g]):
             return ("final-global", f"global {g} = {A.show_py(obs['globals'][g])}, the IR machine {json.dumps(x)[:160]}")
     return ("agree", "")
+
+
+def spec_eq(a, b):
+    """numeric equality of two tagged values printed by TLC (5 == 5.0; containers element-wise)"""
+    if isinstance(a, dict) and isinstance(b, dict) and "t" in a and "t" in b:
+        num = ("int", "uint", "float")
+        if a["t"] in num and b["t"] in num:
+            fa = Fraction(a["v"]) if a["t"] != "float" else Fraction(a["n"], 2 ** a["e"])
+            fb = Fraction(b["v"]) if b["t"] != "float" else Fraction(b["n"], 2 ** b["e"])
+            return fa == fb
+        if a["t"] != b["t"]:
+            return False
+        if a["t"] in ("vec", "arr", "mat"):
+            return len(a["c"]) == len(b["c"]) and all(spec_eq(x, y) for x, y in zip(a["c"], b["c"]))
+        if a["t"] == "struct":
+            return set(a["f"]) == set(b["f"]) and all(spec_eq(a["f"][k], b["f"][k]) for k in a["f"])
+        return True
+    if isinstance(a, list) and isinstance(b, list):
+        return len(a) == len(b) and all(spec_eq(x, y) for x, y in zip(a, b))
+    if isinstance(a, dict) and isinstance(b, dict):
+        return set(a) == set(b) and all(spec_eq(a[k], b[k]) for k in a)
+    return a == b
